@@ -475,4 +475,76 @@ theorem relOpt_proj {R : Type} {o1 o2 : Option (R × Ctx Db Env Err Pre L1)} (hr
       show some (p1.1, p1.2.db) = some (p2.1, p2.2.db)
       rw [hr.1, hr.2.1]
 
+theorem pushEntry_setSpecId (s : JState) (x : Nat) (e : Revm.Model.Journal.Entry) :
+    pushEntry (setSpecId s x) e = (pushEntry s e).map (fun t => setSpecId t x) := by
+  unfold pushEntry setSpecId
+  cases s.journal <;> rfl
+
+theorem loadAccount_setSpecId (db : Revm.Model.Journal.Db) (s : JState) (x : Nat) (a : Addr) :
+    loadAccount db (setSpecId s x) a = (loadAccount db s a).map (fun p => (setSpecId p.1 x, p.2)) := by
+  unfold loadAccount
+  show (match s.state a with | some acc => _ | none => _) = _
+  cases hs : s.state a with
+  | some acc =>
+    simp only
+    by_cases hc : acc.cold
+    · simp only [hc, if_true]
+      show (pushEntry (setSpecId (setAcct s a { acc with cold := false }) x) _).map _ = _
+      rw [pushEntry_setSpecId]
+      cases pushEntry (setAcct s a { acc with cold := false }) (.accountWarmed a) <;> rfl
+    · simp only [hc, if_false, Bool.false_eq_true]; rfl
+  | none =>
+    simp only
+    show (if (!s.preloaded a) = true then (pushEntry (setSpecId (setAcct s a _) x) _).map _ else _) = _
+    by_cases hc : (!s.preloaded a) = true
+    · simp only [hc, if_true]
+      rw [pushEntry_setSpecId]
+      cases pushEntry (setAcct s a (match db.basic a with | some i => Acct.ofInfo i | none => Acct.newNotExisting)) (.accountWarmed a) <;> rfl
+    · simp only [hc, if_false, Bool.false_eq_true]; rfl
+
+theorem loadCode_setSpecId (db : Revm.Model.Journal.Db) (s : JState) (x : Nat) (a : Addr) :
+    loadCode db (setSpecId s x) a = (loadCode db s a).map (fun p => (setSpecId p.1 x, p.2)) := by
+  unfold loadCode
+  rw [loadAccount_setSpecId]
+  cases loadAccount db s a with
+  | none => rfl
+  | some p =>
+    cases p with | mk s1 cold =>
+    simp only [Option.map_some, bind, Option.bind]
+    have hst : (setSpecId s1 x).state a = s1.state a := rfl
+    rw [hst]
+    cases s1.state a with
+    | none => rfl
+    | some acc =>
+      simp only
+      by_cases hc : acc.info.code.isNone = true
+      · simp only [hc, if_true]; rfl
+      · simp only [hc, if_false, Bool.false_eq_true]; rfl
+
+/-- the mainnet body of `tx_against_state` (over the C06 journal model) does not look at the journal's
+spec, whatever the database, the environment check and the caller -/
+theorem mainnetTxAgainstState_specBlind (caller : Env → Addr) (view : Db → Revm.Model.Journal.Db)
+    (dbErr : Db → Addr → Option Err) (check : Env → Acct → Except Err Unit × Acct) (panicErr : Err) :
+    SpecBlind (mainnetTxAgainstState (L1 := L1) caller view dbErr check panicErr) := by
+  intro env w s
+  unfold mainnetTxAgainstState
+  show (match dbErr w.db (caller env) with | some e => _ | none => _) = _
+  cases dbErr w.db (caller env) with
+  | some e => rfl
+  | none =>
+    simp only
+    have hjs : (Work.setSpec w s).js = setSpecId w.js s := rfl
+    have hdb : (Work.setSpec w s).db = w.db := rfl
+    rw [hjs, hdb, loadCode_setSpecId]
+    cases loadCode (view w.db) w.js (caller env) with
+    | none => rfl
+    | some p =>
+      cases p with | mk js cold =>
+      simp only [Option.map_some]
+      have hst : (setSpecId js s).state (caller env) = js.state (caller env) := rfl
+      rw [hst]
+      cases js.state (caller env) with
+      | none => rfl
+      | some acc => rfl
+
 end Revm.Proofs.EvmLifecycle
